@@ -256,8 +256,17 @@ Definition h_verif (now : Z) (s : server) (parts : list frame) : frame :=
   | _ => r_err
   end.
 
-(** process_normal_command for connection [c] (0 inside EXEC) with database [dbi] *)
-Definition normal_command (now : Z) (s : server) (c : Z) (dbi : Z) (parts : list frame)
+(** lazy expiry (bdd75e8): whatever the command is, keys past their deadline are gone from the
+    selected database before it runs, and their WATCHers are told *)
+Definition lazy_expire (now : Z) (s : server) (dbi : Z) (name : bytes) (parts : list frame) : server :=
+  if lazy_expiry_before_dispatch then
+    match expire_before now (get_db s dbi) name parts with
+    | (d1, removed) => set_trk (set_db s dbi d1) dbi (mark_all (get_trk s dbi) removed)
+    end
+  else s.
+
+(** the body of process_normal_command after the lazy expiry: AOF record, dispatch *)
+Definition dispatch_command (now : Z) (s : server) (c : Z) (dbi : Z) (parts : list frame)
            (oracle : option frame) : frame * server :=
   match parts with
   | FBulk nm :: _ =>
@@ -300,6 +309,14 @@ Definition normal_command (now : Z) (s : server) (c : Z) (dbi : Z) (parts : list
             (r, set_trk (set_db s dbi d') dbi (mark_all (get_trk s dbi) ms))
         | None => (FError (bs "ERR unknown command '" ++ name ++ bs "'"), s)
         end
+  | _ => (r_err, s)
+  end.
+
+(** process_normal_command for connection [c] (0 inside EXEC) with database [dbi] *)
+Definition normal_command (now : Z) (s : server) (c : Z) (dbi : Z) (parts : list frame)
+           (oracle : option frame) : frame * server :=
+  match parts with
+  | FBulk nm :: _ => dispatch_command now (lazy_expire now s dbi (upper nm) parts) c dbi parts oracle
   | _ => (r_err, s)
   end.
 
